@@ -92,27 +92,8 @@ def devUdf (i : Input) : Bool := i.chain.contains .udf && (i.cls = .gated || i.c
 (which needs tm.mu.RLock) to make room in write_points. -/
 def devLoop (i : Input) : Bool := i.chain.contains .loopback && i.stop ≠ .close && (i.cls = .gated || i.cls = .immediate)
 
-/-- Is there a UDF node somewhere above a failing node? -/
-def udfAboveFailing : List NodeShape → Bool
-  | [] => false
-  | .udf :: rest => rest.contains .failing || udfAboveFailing rest
-  | _ :: rest => udfAboveFailing rest
-
-/-- finding `udf-above-failed-node-blocks-stop`: a UDF node whose child has failed stops consuming (only its
-forwarding goroutine ends); the nodes above it block on its full input edge and the stop, which waits for them
-first, never gets to abort the UDF. -/
-def devUdfFail (i : Input) : Bool := udfAboveFailing i.chain
-
-/-- Is there a failing node with a node below it? -/
-def failingWithChild : List NodeShape → Bool
-  | [] => false
-  | .failing :: rest => !rest.isEmpty || failingWithChild rest
-  | _ :: rest => failingWithChild rest
-
-/-- finding `failed-udf-forwarder-not-joined`: UDFNode.runUDF returns the error of udf.Close() WITHOUT waiting for
-its forwarding goroutine (`<-forwardErr` is only reached when Close succeeded); node.start then closes the child
-edges while that goroutine may still be in edge.Forward: send on closed channel, the process dies. (Not in the
-model: the model's failing node is one process.) -/
-def devFailForward (i : Input) : Bool := failingWithChild i.chain
+/-! (The deviation clauses of the former findings `udf-above-failed-node-blocks-stop`, `failed-udf-forwarder-not-joined`
+and `periodic-barrier-delete-deadlock` are gone: the defects were repaired in /repo - see findings/C07.txt - and a
+hang / a crash of such a pipeline is a violation like any other.) -/
 
 end Kap.C07
